@@ -321,6 +321,10 @@ func (o *Opts) Matrix() *Node {
 		dims = []string{""}
 	} else {
 		nd := 1 + t.Draw(3, "matrix:ndims")
+		if t.Draw(14, "matrix:empty-setup") == 13 {
+			// an explicitly empty setup mapping: every combination then comes from the adjustments
+			nd = 0
+		}
 		setup := Map()
 		for i := 0; i < nd; i++ {
 			d := o.str("matrix.dim")
@@ -353,6 +357,10 @@ func (o *Opts) Matrix() *Node {
 				w := Map()
 				for _, d := range dims {
 					w.Set(d, o.scalarWith("adj.value"))
+				}
+				if len(dims) == 0 {
+					// (the setup names no dimension: the adjustments bring their own)
+					w.Set("os", o.scalarWith("adj.value"))
 				}
 				a.Set("with", w)
 			}
